@@ -64,7 +64,7 @@ class FS:
 
 
 STYLES = ("raise", "raise_children", "yield", "yield2", "yield_alias", "yield_astr", "yield_raw", "yield_index", "yield_multi", "yield_empty", "yield_path2")
-ACCESS = ("direct", "helper", "prop", "helper2")
+ACCESS = ("direct", "helper", "prop", "helper2", "cyc")
 
 
 @dataclass(frozen=True)
@@ -86,7 +86,8 @@ class VS:
         return (self.field,) if self.field is not None else ()
 
     def sig(self) -> str:
-        d = ",".join(f"{n}.{a[0]}" for n, a in zip(self.deps, self.access))
+        short = {"direct": "d", "helper": "h", "helper2": "hh", "prop": "p", "cyc": "c", "param": "arg"}
+        d = ",".join(f"{n}.{short[a]}" for n, a in zip(self.deps, self.access))
         s = f"{self.name}:{self.where}({d}){self.style}"
         if self.field:
             s += f";field={self.field}"
@@ -183,13 +184,17 @@ def _helpers(f: FS, styles: set) -> List[str]:
         out += [f"    def _hh_{f.name}(self):", f"        return self._h_{f.name}()", ""]
     if "prop" in styles:
         out += ["    @property", f"    def p_{f.name}(self):", f"        return self.{f.name}", ""]
+    if "cyc" in styles:
+        # two mutually recursive helpers (the dependency search must not loop)
+        out += [f"    def _c_{f.name}(self, n=0):", f"        return self.{f.name} if n else self._d_{f.name}()", ""]
+        out += [f"    def _d_{f.name}(self):", f"        return self._c_{f.name}(1)", ""]
     return out
 
 
 def _read(s: str, f: FS, access: str) -> str:
     if access == "param":
         return f.name
-    return {"direct": f"{s}.{f.name}", "helper": f"{s}._h_{f.name}()", "helper2": f"{s}._hh_{f.name}()", "prop": f"{s}.p_{f.name}"}[access]
+    return {"direct": f"{s}.{f.name}", "helper": f"{s}._h_{f.name}()", "helper2": f"{s}._hh_{f.name}()", "prop": f"{s}.p_{f.name}", "cyc": f"{s}._c_{f.name}()"}[access]
 
 
 def _ref(t: TS, v: VS, name: str) -> str:
@@ -599,7 +604,7 @@ def run(report, tier: str, seed: int):
 
     rng = random.Random(seed)
     nmax, kmax = (3, 4) if tier == "quick" else (4, 4)
-    n_random = 260 if tier == "quick" else 2200
+    n_random = 450 if tier == "quick" else 2200
     optnames = ["none", "suffix"] if tier == "quick" else ["none", "suffix", "camel"]
     types = systematic_types(tier) + random_types(rng, n_random, nmax, kmax)
     log = report.driver(
@@ -647,7 +652,7 @@ def run(report, tier: str, seed: int):
 INVOLVED = ["ObjectMethod", "validate", "Validator", "ValidatorMock", "find_all_dependencies", "build_validation_error", "apply_aliaser", "merge_errors"]
 
 
-def _run_type(log, rt, t: TS, cls, optname: str, rng: random.Random, deserialization_method, ValidationError, tag: str):
+def _run_type(log, rt, t: TS, cls, optname: str, rng: random.Random, deserialization_method, ValidationError, tag: str, only=None):
     aliaser = ALIASERS[optname]
     dyn = aliaser or (lambda s: s)
     try:
@@ -664,6 +669,8 @@ def _run_type(log, rt, t: TS, cls, optname: str, rng: random.Random, deserializa
     cases = [(st, oc, False) for st in status_space for oc in outcome_space]
     for _ in range(2):
         cases.append((rng.choice(status_space), rng.choice((outcome_space[0], outcome_space[-1])), True))
+    if only is not None:
+        cases = [only]
     sample_given = False
     for st, oc, extra in cases:
         status = dict(zip(names, st))
@@ -707,7 +714,7 @@ def _run_type(log, rt, t: TS, cls, optname: str, rng: random.Random, deserializa
         per_kind[kind] = per_kind.get(kind, 0) + 1
         if per_kind[kind] > 3:
             continue
-        case = dict(case, order_convention=best, source=type_source(t, tag))
+        case = dict(case, order_convention=best, spec=repr(t), source=type_source(t, tag))
         log.fail(sig, summary, case, observed=obs, expected=exp, functions_involved=INVOLVED)
 
 
@@ -715,7 +722,7 @@ def _judge(t: TS, order, status, fails, dyn, extra, got, calls, built, optname, 
     exp = reference(t, order, status, fails, dyn, extra)
     out: List[tuple] = []
     failing = [k for k, v in fails.items() if v]
-    case = {"type": t.sig(), "aliaser": optname, "datum": datum, "field_status": status, "failing_validators": failing}
+    case = {"type": t.sig(), "aliaser": optname, "datum": datum, "field_status": status, "failing_validators": failing, "extra_key": extra}
     tail = f"{t.sig()}:{optname}:{datum!r}:fail={'+'.join(failing) or '-'}"
     where = f"deserialize({t.sig()}, {datum!r}, aliaser={optname}) with failing validators {failing}"
 
@@ -784,3 +791,45 @@ def _judge(t: TS, order, status, fails, dyn, extra, got, calls, built, optname, 
         if type(obj).__name__ != t.name or vals != expv:
             add("image-mismatch", f"constructed {obj!r} with {vals}, expected fields {expv}", repr(vals), repr(expv))
     return out
+
+
+def replay(rp: dict) -> int:
+    """re-run the one case of a replay file (the type is rebuilt from its description)"""
+    import json
+
+    from vf.core import Report
+
+    case = rp.get("case", {})
+    print(json.dumps({k: rp.get(k) for k in ("property", "signature", "summary")}, indent=1))
+    if "spec" not in case:
+        print("no generated type in this replay file (definition / compilation failure): see case.source")
+        return 1
+    t = eval(case["spec"], {"TS": TS, "FS": FS, "VS": VS})  # noqa: S307 -- our own repr
+    from apischema import ValidationError
+    from apischema.deserialization import deserialization_method
+
+    report = Report(rp.get("property", "C10"), "quick", 0, "exploration")
+    log = report.driver("replay", "one case")
+    tmp = tempfile.mkdtemp(prefix="c10replay_")
+    tag = f"c10rp_{os.getpid()}"
+    sys.path.insert(0, tmp)
+    try:
+        with open(os.path.join(tmp, tag + ".py"), "w") as fh:
+            fh.write(RT_SOURCE)
+        rt = importlib.import_module(tag)
+        with open(os.path.join(tmp, f"{tag}_{t.name}.py"), "w") as fh:
+            fh.write(type_source(t, tag))
+        importlib.invalidate_caches()
+        mod = importlib.import_module(f"{tag}_{t.name}")
+        st = tuple(case["field_status"][f.name] for f in t.fields)
+        oc = tuple(v.name in case["failing_validators"] for v in t.validators)
+        _run_type(log, rt, t, getattr(mod, t.name), case["aliaser"], random.Random(0), deserialization_method, ValidationError, tag, only=(st, oc, bool(case.get("extra_key"))))
+        print("validators invoked:", list(rt.LOG), "constructed:", list(rt.BUILT))
+    finally:
+        sys.modules.pop(tag, None)
+        sys.modules.pop(f"{tag}_{t.name}", None)
+        sys.path.remove(tmp)
+        shutil.rmtree(tmp, ignore_errors=True)
+    for v in report.violations:
+        print(("KNOWN-FINDING " if v.known else "STILL FAILING ") + v.summary)
+    return 1 if any(v.known is None for v in report.violations) else 0
